@@ -1,5 +1,6 @@
 """C05 Allocating cash to a security respects the budget, costs included."""
 import math
+import os
 
 import numpy as np
 import pandas as pd
@@ -293,11 +294,68 @@ def refuse_spec(draw):
     }
 
 
+def fuzz_campaign(ctx, runs):
+    """Supplementary engine (thorough tier): a coverage-guided libFuzzer campaign (atheris) over byte strings decoded into the same specs,
+    judged by the same case function (fuzz/c05_atheris.py).  One process per shard, seeded from VERIF_SEED and the shard number; a
+    failing input is written out as an ordinary replay spec.  If atheris cannot be made available offline the campaign is skipped and
+    the evidence says so - the deciding engine is the Hypothesis search above."""
+    import fcntl
+    import json
+    import os
+    import shutil
+    import subprocess
+    import sys
+    import tempfile
+
+    from ..harness import VERIF
+
+    deps = os.path.join(VERIF, ".deps")
+    env = dict(os.environ)
+    env["PYTHONPATH"] = deps + os.pathsep + env.get("PYTHONPATH", "")
+    os.makedirs(deps, exist_ok=True)
+    with open(os.path.join(deps, ".lock"), "w") as lock:
+        fcntl.flock(lock, fcntl.LOCK_EX)
+        ok = subprocess.run([sys.executable, "-c", "import atheris"], env=env, capture_output=True).returncode == 0
+        if not ok:
+            subprocess.run([sys.executable, "-m", "pip", "install", "-q", "--no-index", "--find-links", "/opt/veriftools/wheels", "--target", deps, "atheris"], capture_output=True)
+            ok = subprocess.run([sys.executable, "-c", "import atheris"], env=env, capture_output=True).returncode == 0
+        fcntl.flock(lock, fcntl.LOCK_UN)
+    st = ctx.stats
+    if not ok:
+        st.labels["fuzz:atheris_unavailable"] += 1
+        return
+    tmp = tempfile.mkdtemp(prefix="c05fuzz_")
+    try:
+        out = os.path.join(tmp, "stats.json")
+        seed = (ctx.seed * 1000 + ctx.shard) % (2**31 - 1) + 1
+        subprocess.run([sys.executable, os.path.join(VERIF, "fuzz", "c05_atheris.py"), out, str(runs), str(seed)], env=env, cwd=VERIF, capture_output=True, timeout=6 * 3600)
+        if not os.path.exists(out):
+            st.labels["fuzz:no_output"] += 1
+            return
+        with open(out) as fh:
+            r = json.load(fh)
+    finally:
+        shutil.rmtree(tmp, ignore_errors=True)
+    st.evaluations += r["runs"]
+    st.per_sub["fuzz_allocate"] += r["runs"]
+    st.nontrivial.update(r["nontrivial"])
+    st.discards["fuzz_allocate:discarded"] += r["discards"]
+    for k, v in r["labels"].items():
+        st.labels["fuzz_allocate:" + k] += v
+    if r.get("sample") is not None and len(st.nt_samples) < 4:
+        st.nt_samples.append({"sub": "fuzz_allocate", "case": r["sample"]})
+    if r.get("failure"):
+        f = r["failure"]
+        st.failures.append({"sub": "allocate", "message": "[coverage-guided campaign] " + f["message"], "signature": f["signature"], "spec": f["spec"]})
+
+
 SUBS = {"allocate": case_allocate, "refuse": case_refuse}
 
 
 def shard(ctx):
     run_sub(ctx, "allocate", alloc_spec(), lambda s: case_allocate(ctx, s), ctx.n(40000, 1500000))
     run_sub(ctx, "refuse", refuse_spec(), lambda s: case_refuse(ctx, s), ctx.n(800, 8000))
+    if ctx.tier == "thorough" and ctx.kind == "py" or os.environ.get("VERIF_C05_FUZZ"):
+        fuzz_campaign(ctx, int(os.environ.get("VERIF_C05_FUZZ_RUNS", "100000")))
 
 STRATS = {"allocate": alloc_spec, "refuse": refuse_spec}
